@@ -416,3 +416,267 @@ def rule_integrator_setup(ctx):
         else:
             r.bad(Finding("integrator-setup", f"Evolution.{name}", "does not advance through self._update_method", where=f"{g.module.relpath}:{g.lineno}", operand="driver"))
     return r
+
+
+# ---------------------------------------------------------------------------
+# two-sided updates are congruences:  rho(t) = L rho0 L^dagger
+# ---------------------------------------------------------------------------
+# Symbolic words over matrix atoms with (transposed, conjugated) flags.  dag reverses a word and flips both flags, .T
+# reverses and flips `transposed`, conj flips `conjugated`.  Atoms: the state (rho), propagators Exp(g) = expm(g*H)
+# with a symbolic coefficient g in {+f, -f} (f = -i*dt is purely imaginary, so conj(f) = -f), eigenvector matrices V
+# and diagonal phase factors D (for which transposition is the identity).  With H Hermitian, Exp(g)^dagger =
+# Exp(conj g), which is the only simplification used; a bare transpose of Exp or V is irreducible (H^T != H and
+# V^T != V^dagger for complex Hamiltonians).
+
+class _Word(list):
+    pass
+
+
+def _adj(w, t=True, c=True):
+    out = _Word()
+    seq = reversed(w) if t else w
+    for kind, name, tf, cf in seq:
+        out.append((kind, name, tf ^ t, cf ^ c))
+    return out
+
+
+def _coef_sign(e, defs):
+    """(+1 | -1, base) for the generator coefficient expression `g` in g * H: follows locals, understands unary minus and
+    conj(); the base coefficient must be defined as (imaginary literal) * (real time difference)."""
+    sign = 1
+    for _ in range(8):
+        if isinstance(e, ast.UnaryOp) and isinstance(e.op, ast.USub):
+            sign, e = -sign, e.operand
+        elif isinstance(e, ast.Call) and (getattr(e.func, "id", None) or getattr(e.func, "attr", None)) in ("conj", "conjugate"):
+            sign = -sign  # conj of a purely imaginary coefficient
+            e = e.args[0] if e.args else e.func.value
+        else:
+            break
+    if isinstance(e, ast.Name) and e.id in defs:
+        d = defs[e.id]
+        imag = [x for x in ast.walk(d) if isinstance(x, ast.Constant) and isinstance(x.value, complex)]
+        if len(imag) == 1 and imag[0].value.real == 0 and isinstance(d, ast.BinOp) and isinstance(d.op, ast.Mult):
+            return sign, e.id
+    return None
+
+
+def _word_of(e, defs, depth=0):
+    """symbolic word of a matrix-valued expression; None outside the fragment."""
+    if depth > 12:
+        return None
+    if isinstance(e, ast.Name):
+        if e.id in defs:
+            return _word_of(defs[e.id], defs, depth + 1)
+        return _Word([("M", e.id, False, False)])
+    if isinstance(e, ast.Attribute):
+        if e.attr in ("T",):
+            w = _word_of(e.value, defs, depth + 1)
+            return None if w is None else _adj(w, True, False)
+        if e.attr in ("H",):
+            w = _word_of(e.value, defs, depth + 1)
+            return None if w is None else _adj(w, True, True)
+        if isinstance(e.value, ast.Name) and e.value.id == "self":
+            kind = {"_pt": "R", "pe0": "R", "_p0": "R"}.get(e.attr, "M")
+            return _Word([(kind, e.attr, False, False)])
+        return None
+    if isinstance(e, ast.BinOp) and isinstance(e.op, ast.MatMult):
+        a, b = _word_of(e.left, defs, depth + 1), _word_of(e.right, defs, depth + 1)
+        return None if a is None or b is None else _Word(a + b)
+    if isinstance(e, ast.Call):
+        fn = getattr(e.func, "id", None) or getattr(e.func, "attr", None)
+        if fn == "dag" and len(e.args) == 1:
+            w = _word_of(e.args[0], defs, depth + 1)
+            return None if w is None else _adj(w, True, True)
+        if fn in ("conj", "conjugate"):
+            w = _word_of(e.args[0] if e.args else e.func.value, defs, depth + 1)
+            return None if w is None else _adj(w, False, True)
+        if fn == "transpose" and (e.args or isinstance(e.func, ast.Attribute)):
+            w = _word_of(e.args[0] if e.args and isinstance(e.func, ast.Name) else e.func.value, defs, depth + 1)
+            return None if w is None else _adj(w, True, False)
+        if fn in ("dot",) and len(e.args) == 2:
+            a, b = _word_of(e.args[0], defs, depth + 1), _word_of(e.args[1], defs, depth + 1)
+            return None if a is None or b is None else _Word(a + b)
+        if fn in ("expm_multiply", "expm") and e.args:
+            gen = e.args[0]
+            cs = None
+            if isinstance(gen, ast.BinOp) and isinstance(gen.op, ast.Mult):
+                for coef, ham in ((gen.left, gen.right), (gen.right, gen.left)):
+                    if isinstance(ham, ast.Attribute) and ham.attr in ("_ham", "ham") or (isinstance(ham, ast.Name) and ham.id.lower() in ("h", "ham")):
+                        cs = _coef_sign(coef, defs)
+            if cs is None:
+                return None
+            atom = _Word([("E", f"{'+' if cs[0] > 0 else '-'}{cs[1]}", False, False)])
+            if fn == "expm":
+                return atom
+            y = _word_of(e.args[1], defs, depth + 1) if len(e.args) > 1 else None
+            return None if y is None else _Word(atom + y)
+        if fn == "ldmul" and len(e.args) == 2:
+            d, x = _word_of(e.args[0], defs, depth + 1), _word_of(e.args[1], defs, depth + 1)
+            if d is None or x is None or len(d) != 1:
+                return None
+            return _Word([("D",) + d[0][1:]] + x)
+        if fn == "rdmul" and len(e.args) == 2:
+            x, d = _word_of(e.args[0], defs, depth + 1), _word_of(e.args[1], defs, depth + 1)
+            if d is None or x is None or len(d) != 1:
+                return None
+            return _Word(x + [("D",) + d[0][1:]])
+        if fn == "explt":
+            return _Word([("D", "explt", False, False)])
+        if fn in ("qarray", "asarray", "ascontiguousarray") and len(e.args) == 1:
+            return _word_of(e.args[0], defs, depth + 1)
+        return None
+    return None
+
+
+def _normal(atom):
+    kind, name, t, c = atom
+    if kind == "D":
+        return (kind, name, False, c)          # diagonal: transposition is the identity
+    if kind == "E" and t and c:
+        flipped = ("-" if name[0] == "+" else "+") + name[1:]
+        return (kind, flipped, False, False)   # Exp(g)^dagger = Exp(conj g) = Exp(-g) for Hermitian H, imaginary g
+    if kind == "R" and t and c:
+        return (kind, name, False, False)      # a density operator is Hermitian
+    return atom
+
+
+def rule_congruence(ctx):
+    r = RuleResult(
+        "congruence-form",
+        "symbolic algebra over (transpose, conjugate) flags: in every density-operator update routine the new state is "
+        "L · rho · R with R equal to the adjoint of L as a word of propagators / eigenvector matrices / diagonal phases, "
+        "using only H^dagger = H (so Exp(g)^dagger = Exp(-g) for the imaginary g = -i dt): a bare transpose, a conjugate "
+        "without transpose, or a second propagator that is not the adjoint of the first leaves the word unbalanced — the "
+        "update is then U rho conj(U) or similar, exact only for real Hamiltonians; ket routines apply a single word to the state",
+    )
+    cls = ctx.prog.cls(EVO, "Evolution")
+    n = 0
+    for name, f in sorted(cls.methods.items()):
+        if not name.startswith("_update_to_") or f.is_alias:
+            continue
+        stores = [a for a in ast.walk(f.node) if isinstance(a, ast.Assign) and any(isinstance(t, ast.Attribute) and t.attr == "_pt" for t in a.targets)]
+        if not stores:
+            continue
+        defs = {}
+        for a in ast.walk(f.node):
+            if isinstance(a, ast.Assign) and len(a.targets) == 1 and isinstance(a.targets[0], ast.Name):
+                defs[a.targets[0].id] = a.value
+            elif isinstance(a, ast.Assign) and len(a.targets) == 1 and isinstance(a.targets[0], ast.Tuple) and isinstance(a.value, ast.Attribute) and a.value.attr == "_ham":
+                # evals, evecs = self._ham
+                for k, el in enumerate(a.targets[0].elts):
+                    if isinstance(el, ast.Name) and k == 1:
+                        defs.pop(el.id, None)
+        n += 1
+        construct = f"Evolution.{name}"
+        where = f"{f.module.relpath}:{stores[-1].lineno}"
+        w = _word_of(stores[-1].value, defs)
+        if w is None:
+            r.skip(construct, f"update expression `{src_of(stores[-1].value)[:60]}` is outside the symbolic fragment")
+            continue
+        w = [_normal(a) for a in w]
+        pos = [k for k, a in enumerate(w) if a[0] == "R"]
+        if len(pos) != 1:
+            r.skip(construct, f"{len(pos)} occurrences of the state in the update word")
+            continue
+        L, R = w[:pos[0]], w[pos[0] + 1:]
+        is_dop = name.endswith("_dop")
+        show = lambda word: " ".join(f"{a[1]}{'^T' if a[2] else ''}{'*' if a[3] else ''}" for a in word) or "1"
+        if w[pos[0]][2] or w[pos[0]][3]:
+            r.bad(Finding("congruence-form", construct, f"the state enters the update transposed / conjugated ({show([w[pos[0]]])})", where=where, operand="state"))
+            continue
+        if not is_dop:
+            if R:
+                r.bad(Finding("congruence-form", construct, f"a ket update multiplies the state from the right ({show(R)})", where=where, operand="right"))
+            elif any(a[2] or a[3] for a in L if a[0] != "D"):
+                r.bad(Finding("congruence-form", construct, f"the propagator is applied transposed / conjugated ({show(L)})", where=where, operand="left"))
+            else:
+                r.ok(construct, sample={"routine": name, "word": f"[{show(L)}] psi"})
+            continue
+        want = [_normal(a) for a in _adj(_Word(L), True, True)]
+        if L and R == want:
+            r.ok(construct, sample={"routine": name, "word": f"[{show(L)}] rho [{show(R)}]", "right = adjoint(left)": True})
+        else:
+            r.bad(Finding(
+                "congruence-form", construct,
+                f"the update is [{show(L)}] rho [{show(R)}], but the adjoint of the left factor is [{show(want)}]: the right factor is not "
+                "L^dagger (for a complex Hermitian Hamiltonian this is not U rho U^dagger)", where=where, operand="right-factor"))
+    r.floor(n, 4, "state-assigning update routines")
+    return r
+
+
+def rule_faithful_state(ctx):
+    r = RuleResult(
+        "faithful-state",
+        "the state handed out for method='integrate' — by the `pt` accessor and to the integrator callbacks — is the "
+        "integrator's vector after shape-only operations (reshape / qarray, followed through helper methods): no arithmetic "
+        "(rescaling, normalisation, phase) is applied on the way, and accessor and callbacks use the same conversion",
+    )
+    cls = ctx.prog.cls(EVO, "Evolution")
+    SHAPE_ONLY = {"reshape", "qarray", "asarray", "ravel", "view", "copy"}
+
+    def conversion(fnode, expr, depth=0):
+        """('ok', signature) if expr is the integrator vector under shape-only ops; ('arith', text) if arithmetic is involved."""
+        if depth > 4:
+            return ("unknown", src_of(expr))
+        if isinstance(expr, ast.Call):
+            fn = getattr(expr.func, "id", None) or getattr(expr.func, "attr", None)
+            if fn in SHAPE_ONLY:
+                inner = expr.args[0] if (isinstance(expr.func, ast.Name) and expr.args) else expr.func.value
+                k, sig = conversion(fnode, inner, depth + 1)
+                extra = "" if fn != "reshape" else "(" + ",".join(src_of(a) for a in expr.args) + ")"
+                return (k, f"{fn}{extra}<{sig}")
+            if isinstance(expr.func, ast.Attribute) and isinstance(expr.func.value, ast.Name) and expr.func.value.id == "self":
+                h = cls.find(expr.func.attr)
+                if h is not None and not h.is_alias:
+                    rets = [x for x in ast.walk(h.node) if isinstance(x, ast.Return) and x.value is not None]
+                    if len(rets) != 1:
+                        return ("unknown", src_of(expr))
+                    rv = rets[0].value
+                    # any arithmetic on the returned variable inside the helper?
+                    if isinstance(rv, ast.Name):
+                        for x in ast.walk(h.node):
+                            if isinstance(x, ast.AugAssign) and isinstance(x.target, ast.Name) and x.target.id == rv.id:
+                                return ("arith", src_of(x))
+                        ds = [x.value for x in ast.walk(h.node) if isinstance(x, ast.Assign) and isinstance(x.targets[0], ast.Name) and x.targets[0].id == rv.id]
+                        if len(ds) != 1:
+                            return ("arith" if len(ds) > 1 else "unknown", f"{rv.id} assigned {len(ds)} times in {h.name}")
+                        return conversion(h.node, ds[0], depth + 1)
+                    return conversion(h.node, rv, depth + 1)
+            return ("unknown", src_of(expr))
+        if isinstance(expr, (ast.BinOp, ast.UnaryOp)):
+            return ("arith", src_of(expr))
+        if isinstance(expr, ast.Name):
+            return ("ok", "y")
+        if isinstance(expr, ast.Attribute):
+            return ("ok", "y") if expr.attr == "y" else ("unknown", src_of(expr))
+        return ("unknown", src_of(expr))
+
+    sigs = {}
+    g = cls.methods.get("pt")
+    if g is None:
+        raise AnalysisError("Evolution.pt not found")
+    for n_ in ast.walk(g.node):
+        if isinstance(n_, ast.Return) and n_.value is not None and any(isinstance(x, ast.Attribute) and x.attr == "_stepper" for x in ast.walk(n_.value)):
+            sigs["pt accessor"] = (conversion(g.node, n_.value), f"{g.module.relpath}:{n_.lineno}")
+    setup = cls.methods.get("_setup_callback")
+    if setup is not None:
+        k = 0
+        for inner in ast.walk(setup.node):
+            if isinstance(inner, ast.FunctionDef) and inner.name == "int_step_callback":
+                for a in ast.walk(inner):
+                    if isinstance(a, ast.Assign) and isinstance(a.targets[0], ast.Name) and a.targets[0].id == "pt":
+                        k += 1
+                        sigs[f"integrator callback #{k}"] = (conversion(inner, a.value), f"{setup.module.relpath}:{a.lineno}")
+    if "pt accessor" not in sigs or len(sigs) < 2:
+        raise AnalysisError("faithful-state: state conversions of the integrate method not found")
+    ref = sigs["pt accessor"][0]
+    for who, ((kind, sig), where) in sigs.items():
+        if kind == "arith":
+            r.bad(Finding("faithful-state", "Evolution", f"{who}: the integrator's vector is modified arithmetically on the way out (`{sig}`): the reported state is not the evolved state", where=where, operand=who))
+        elif kind == "unknown":
+            r.skip(f"Evolution[{who}]", f"conversion `{sig}` not followed")
+        elif (kind, sig) != ref and ref[0] == "ok":
+            r.bad(Finding("faithful-state", "Evolution", f"{who} converts the integrator's vector as `{sig}` but the pt accessor as `{ref[1]}`: callbacks do not see the reported state", where=where, operand=who + ":sibling"))
+        else:
+            r.ok(f"Evolution[{who}]", sample={"where": who, "conversion": sig})
+    return r
